@@ -16,44 +16,49 @@ SwKM == IOEnv.X01_KM = "1"
 SwUZ == IOEnv.X01_UZ = "1"
 SwZS == IOEnv.X01_ZS = "1"
 
-VARIABLES acts, outs
-rpvars == <<xvars, acts, outs>>
+VARIABLES acts, outs, mids    \* mids: the states after the operations of the delivery in progress
+rpvars == <<xvars, acts, outs, mids>>
 
-Obs == [ws |-> [q \in OPs |-> Enc(ws'[q])], lbi |-> lbi',
-        bal |-> [c \in 1..(KMax + 1) |-> Balance(ws', lbi', c - 1, SW)]]
+ObsCore == [ws |-> [q \in OPs |-> Enc(ws'[q])], lbi |-> lbi',
+            bal |-> [c \in 1..(KMax + 1) |-> Balance(ws', lbi', c - 1, SW)]]
+\* mid: the state after each single operation of a delivery (a caller may hand them over one by one)
+Obs == [ws |-> ObsCore.ws, lbi |-> ObsCore.lbi, bal |-> ObsCore.bal, mid |-> <<>>]
+ObsD == [ws |-> ObsCore.ws, lbi |-> ObsCore.lbi, bal |-> ObsCore.bal, mid |-> Append(mids, ObsCore)]
 Emit == PrintT(ToJson([k |-> "beh", base |-> Base, par |-> par, wt |-> wt, txin |-> txin, own |-> own,
                        cont |-> cont', acts |-> acts', outs |-> outs']))
 
-RInit == XInit /\ acts = <<>> /\ outs = <<>>
-RPick == Pick /\ UNCHANGED <<acts, outs>>
+RInit == XInit /\ acts = <<>> /\ outs = <<>> /\ mids = <<>>
+RPick == Pick /\ UNCHANGED <<acts, outs, mids>>
 RDeliver == \E B \in SUBSET Hashes :
               /\ Deliver(B)
               /\ acts' = Append(acts, [a |-> "D", B |-> B, chain |-> chain', ops |-> lastops'])
+              /\ mids' = <<>>
               /\ IF pend' = <<>> THEN outs' = Append(outs, Obs) /\ Emit ELSE outs' = outs
 RProc == /\ (ProcAdd \/ ProcRemove)
          /\ IF atomic
             THEN /\ acts' = acts
-                 /\ IF pend' = <<>> THEN outs' = Append(outs, Obs) /\ Emit ELSE outs' = outs
+                 /\ IF pend' = <<>> THEN outs' = Append(outs, ObsD) /\ mids' = <<>> /\ Emit
+                                    ELSE outs' = outs /\ mids' = Append(mids, ObsCore)
             ELSE /\ acts' = Append(acts, [a |-> "A", b |-> Head(pend)[2], i |-> Base + Head(pend)[3]])
-                 /\ outs' = Append(outs, Obs)
+                 /\ outs' = Append(outs, Obs) /\ mids' = mids
                  /\ Emit
 RMempool == \E t \in Txs :
               /\ Mempool(t)
               /\ acts' = Append(acts, [a |-> "M", t |-> t])
-              /\ outs' = Append(outs, Obs) /\ Emit
+              /\ outs' = Append(outs, Obs) /\ mids' = mids /\ Emit
 RSendOk == \E a \in SendAmts : \E X \in SendChoices(ws, lbi, a) :
               /\ SendOkX(a, X)
               /\ acts' = Append(acts, [a |-> "S", amt |-> a, ok |-> TRUE, X |-> X, change |-> SumVal(X) - a - Fee,
                                       allowed |-> TLCEval(SendChoices(ws, lbi, a))])
-              /\ outs' = Append(outs, Obs) /\ Emit
+              /\ outs' = Append(outs, Obs) /\ mids' = mids /\ Emit
 RSendFail == \E a \in SendAmts :
               /\ SendFail(a)
               /\ acts' = Append(acts, [a |-> "S", amt |-> a, ok |-> FALSE, X |-> {}, change |-> 0, allowed |-> {}])
-              /\ outs' = Append(outs, Obs) /\ Emit
+              /\ outs' = Append(outs, Obs) /\ mids' = mids /\ Emit
 RRewind == \E i \in Base..(Base + N) :
               /\ Rewind(i)
               /\ acts' = Append(acts, [a |-> "R", i |-> i])
-              /\ outs' = Append(outs, Obs) /\ Emit
+              /\ outs' = Append(outs, Obs) /\ mids' = mids /\ Emit
 RNext == RPick \/ RDeliver \/ RProc \/ RMempool \/ RSendOk \/ RSendFail \/ RRewind
 \* The histories are NOT part of the view: TLC visits every state of X01_Wallet once, with the
 \* history of the path that reached it first, and evaluates (hence prints) every transition out
